@@ -26,3 +26,13 @@ package tchannel
 
 // A connection's exchange sets, logger and frame pool are fixed at construction.
 //@ structinv (c *Connection) established newConnection : c.inbound != nil && c.outbound != nil && c.log != nil
+
+// A relayer's tables, timer pool, connection and logger are fixed by NewRelayer.
+//@ structinv (r *Relayer) established NewRelayer : r.inbound != nil && r.outbound != nil && r.timeouts != nil && r.conn != nil && r.logger != nil
+//@ structinv (ri *relayItems) established NewRelayer helpers newRelayItems : ri.items != nil
+//@ func NewRelayer(ch *Channel, conn *Connection) (r *Relayer)
+//@   nosafety
+//@   requires conn.log != nil
+//@   modifies all
+//@   ensures r != nil && r.conn == conn
+//@   property C08 C09
